@@ -21,13 +21,13 @@ import (
 // This clause is tied by observation only (impl vs spec); the framing theorems are about Record.
 
 type c02dcase struct {
-	seed    uint64
-	v11     bool
-	segK    int
-	nreq    int
-	payload [][]byte
-	chunks  [][]int
-	hasCR   bool
+	seed     uint64
+	v11      bool
+	segK     int
+	nreq     int
+	payload  [][]byte
+	chunks   [][]int
+	hasCR    bool
 	hashLine bool
 }
 
